@@ -66,7 +66,7 @@ COMPS = [[1, 1], [1, 3], [3, 1], [1, 2], [1, 1, 2], [2, 1, 1], [1, 7], [1], [4],
 POOL = sorted(set(LETTERS + CAS_POOL + NAME_POOL + ALIAS_POOL + GROUP_POOL +
                   ['nope', 'q', 'lq', '', 'G', 'Q', '90-00-9', 's', 'l', 'g', 'S', 'L']))
 NAMEID = {nm: i for i, nm in enumerate(POOL)}
-COQ_HEADER = ('From V Require Import Common.Num C10.Model C10.ModelCfg C10.ModelEll.\nOpen Scope Q_scope.\nOpen Scope string_scope.\n'
+COQ_HEADER = ('From V Require Import Common.Num C10.Model C10.ModelCfg C10.ModelEll C10.ModelBuf.\nOpen Scope Q_scope.\nOpen Scope string_scope.\n'
               + ''.join(f'Definition n{i} : string := "{nm}".\nDefinition k{i} : key := KStr n{i}.\n' for i, nm in enumerate(POOL))
               + ''.join(f'Definition p{i} := Pos {i}.\n' for i in range(9))
               + 'Definition kt := KTup.\nDefinition kl := KList.\nDefinition g_ := Grp.\n'
@@ -1525,6 +1525,44 @@ def gen_ell_data(rng, ck, glen, nph, groups, dt, n=8):
         return ['m', [[val() for _ in range(ncol)] for _ in range(nr)]]
     return dt if dt[0] in 'nv' else ['n', val()]
 
+BVALS = [1.0, 2.0, 3.0, 4.0, 5.0, 7.0, 8.0, 0.5, 0.25, 16.0]
+
+def gen_bdef_ops(rng, ids, groups, glen, bufs, sim, ixs, cur, malformed):
+    """the caller defines a group from a VIEW of one of its own float arrays (ModelBuf.v) and then keeps using the array:
+    re-fills it, rescales it, zeroes it; afterwards scalars are written to the group and read back (every indexer kind).
+    sim = the generator's picture of the arrays (a definition needs a view with a positive sum)"""
+    ops = []
+    b = rng.randrange(len(bufs))
+    k = rng.randint(1, min(len(sim[b]), len(ids), 3))
+    if rng.random() < 0.6 or sum(sim[b][:k]) <= 0:          # the array is (re-)filled for this definition
+        vals = [rng.choice(BVALS) for _ in range(k)]
+        sim[b][:k] = vals
+        ops.append(['poke', b, vals])
+    name = rng.choice(GROUP_POOL[:3] + ['G3', 'G4', 'Gy'])
+    members = rng.sample(ids, k)
+    ln = k + (rng.choice([-1, 1]) if malformed and rng.random() < 0.3 else 0)
+    if ln <= 0 or sum(sim[b][:ln]) <= 0: ln = k
+    ops.append(['bdef', name, members, b, ln, rng.random() < 0.3])
+    groups.append(name); glen[name] = k
+    f = rng.random()
+    m = len(sim[b])
+    if f < 0.8:                                              # what the caller does with ITS array afterwards
+        w = rng.randint(1, m)
+        g = rng.random()
+        if g < 0.4: vals = [rng.choice(BVALS) for _ in range(w)]
+        elif g < 0.7: vals = [x * rng.choice([8.0, 0.125, 2.0]) for x in sim[b][:w]]
+        elif g < 0.85: vals = [0.0] * w
+        else: vals = [rng.choice(BVALS + [0.0]) for _ in range(w)]
+        sim[b][:w] = vals
+        ops.append(['poke', b, vals])
+    for _ in range(rng.randint(1, 3)):
+        i = rng.randrange(len(ixs))
+        key = kS(name) if ixs[i]['kind'] == 'c' else kT([kS(rng.choice(cur)), kS(name)])
+        if rng.random() < 0.25: key = kT([kS(rng.choice(ids)), kS(name)]) if ixs[i]['kind'] == 'c' else kT([kS(rng.choice(cur)), kT([kS(rng.choice(ids)), kS(name)])])
+        ops.append(['set', i, key, ['n', float(rng.choice([8, 1, 0.5, 3, 1024]))]])
+        ops.append(['getm' if rng.random() < 0.3 else 'get', i, key if rng.random() < 0.6 else (KE if ixs[i]['kind'] == 'c' else kS(rng.choice(cur)))])
+    return ops
+
 def hist_case(rng, nops=None):
     risky = rng.random() < 0.5
     malformed = rng.random() < 0.25
@@ -1543,11 +1581,16 @@ def hist_case(rng, nops=None):
     many = nops is None and rng.random() < 0.12
     if nops is None: nops = rng.randint(150, 260) if many else rng.randint(20, 60)
     ops = []; seen = []
+    bufs = [[rng.choice(BVALS) for _ in range(rng.randint(2, 4))] for _ in range(rng.randint(1, 2))] if rng.random() < 0.6 else []
+    sim = [list(b) for b in bufs]
     later = ['G3', 'Gy', 'ay', 'z9', 'l', 's']          # names that may only come to exist later: looked up before and after
     cur = sorted(set(phs))
     while len(ops) < nops:
         r = rng.random()
         names = known + (later if rng.random() < 0.3 else [])
+        if r < (0.04 if many else 0.12) and bufs and rng.random() < 0.5:
+            ops += gen_bdef_ops(rng, ids, groups, glen, bufs, sim, ixs, cur, malformed)
+            continue
         if r < (0.04 if many else 0.12):
             op = gen_cfg_op(rng, ids, known, groups, risky)
             if op[0] == 'group': glen[op[1]] = len(op[2])
@@ -1595,7 +1638,23 @@ def hist_case(rng, nops=None):
             ops.append(['overlap', rng.sample([c['CAS'] for c in chems], rng.randint(1, min(n, 3)))])
         else:
             ops.append(['getm' if rng.random() < 0.15 else 'get', i, key])
-    return {'hist': True, 'chems': chems, 'cops': cops, 'ixs': ixs, 'sps': sps, 'ops': ops}
+    return {'hist': True, 'chems': chems, 'cops': cops, 'ixs': ixs, 'sps': sps, 'ops': ops, 'bufs': bufs}
+
+def corpus_buf_reuse():
+    """groups defined (molar and by weight) from views of ONE array the caller re-uses, rescales and zeroes afterwards; then
+    scalars written to every group on every indexer kind, molar and mass views read back"""
+    ops = []
+    for name, members, vals, wt, after in [('G1', ['A_', 'B_'], [1.0, 3.0], False, [3.0, 1.0, 4.0]), ('G2', ['C_', 'D_', 'B_'], [3.0, 1.0, 4.0], True, [24.0, 0.125]),
+                                           ('G3', ['D_', 'A_'], [5.0, 15.0], False, [0.0, 0.0, 0.0])]:
+        ops += [['poke', 0, vals], ['bdef', name, members, 0, len(vals), wt], ['poke', 0, after]]
+    for name in ['G1', 'G2', 'G3']:
+        g = kS(name)
+        ops += [['set', 0, g, ['n', 8.0]], ['get', 0, KE], ['get', 0, g], ['getm', 0, g], ['set', 1, kT([kS('l'), g]), ['n', 0.5]], ['get', 1, kS('l')],
+                ['set', 0, kT([kS('C_'), g]), ['n', 3.0]], ['get', 0, KE], ['sget', 0, g]]
+    return {'hist': True, 'chems': _chems4(), 'cops': [], 'ops': ops, 'bufs': [[7.0, 1.0, 1.0]],
+            'ixs': [{'kind': 'c', 'stream': False, 'data': [1.0, 2.0, 4.0, 8.0]},
+                    {'kind': 'm', 'stream': False, 'phases': ['g', 'l'], 'data': [[1.0, 2.0, 4.0, 8.0], [16.0, 32.0, 64.0, 128.0]]}],
+            'sps': [[0.125, 0.25, 0.5, 0.75]]}
 
 def corpus_cfg_redefine():
     """a group is read, REDEFINED, and read again (every indexer kind); also a chemical's ID taken over by a group"""
@@ -1655,7 +1714,7 @@ def corpus_ell_full():
     return {'hist': True, 'chems': _chems4(), 'cops': [['group', 'G1', ['A_', 'B_'], None, False], ['group', 'G2', ['C_'], None, False]], 'ops': ops,
             'ixs': [{'kind': 'm', 'stream': False, 'phases': ['g', 'l'], 'data': base}], 'sps': []}
 
-CORPUS += [corpus_cfg_redefine(), corpus_cfg_phase_alias(), corpus_cfg_safe(), corpus_ell_full()]
+CORPUS += [corpus_cfg_redefine(), corpus_cfg_phase_alias(), corpus_cfg_safe(), corpus_ell_full(), corpus_buf_reuse()]
 
 def build_splits(case, chems):
     ix = env()['ix']
@@ -1687,9 +1746,17 @@ def canon_sval(v):
     if isinstance(v, (int, float, np.floating, np.integer)): return ['n', fr_json(frac(v))]
     return ['x', repr(v)]
 
-def hist_step(op, chems, ixs, sps, seen_phases):
+def hist_step(op, chems, ixs, sps, seen_phases, bufs=None):
     """one operation of a history on the real objects -> canonical observation"""
     kind = op[0]
+    if kind == 'bdef':              # chemicals.define_group(name, IDs, view of the caller's float array, wt)
+        view = bufs[op[3]][:op[4]]
+        try: chems.define_group(op[1], op[2], view, op[5]); e = None
+        except Exception as ex: e = err_of(ex)
+        return {'bd': e, 'view': [fr_json(frac(x)) for x in view]}
+    if kind == 'poke':              # the caller writes into its own array
+        bufs[op[1]][:len(op[2])] = op[2]
+        return {'bp': [fr_json(frac(x)) for x in bufs[op[1]]]}
     if kind == 'cfg':
         try: apply_cop(chems, op[1]); return {'c': None}
         except Exception as e: return {'c': err_of(e), 'msg': f'{type(e).__name__}: {e}'[:120]}
@@ -1718,7 +1785,9 @@ def run_impl_hist(case):
     ixs = build_indexers(case, chems)
     sps = build_splits(case, chems)
     seen_phases = set((0, tuple(o._phases)) for o, x in zip(ixs, case['ixs']) if x['kind'] == 'm')
-    out['obs'] = [hist_step(op, chems, ixs, sps, seen_phases) for op in case['ops']]
+    bufs = [np.array(b, float) for b in case.get('bufs', [])]
+    out['obs'] = [hist_step(op, chems, ixs, sps, seen_phases, bufs) for op in case['ops']]
+    out['bufs'] = [[fr_json(frac(x)) for x in b] for b in bufs]
     out['table'] = sorted([[k, ['p', int(v)] if isinstance(v, (int, np.integer)) else ['g', [int(i) for i in v]]]
                            for k, v in chems._index.items()])
     out['absent'] = sorted(set(x for x in NAME_POOL + ALIAS_POOL + GROUP_POOL + LETTERS + CAS_POOL + ['nope'] if x not in chems._index))
@@ -1769,6 +1838,16 @@ def chobs(ob):
     if 'sw' in ob: return f'(HSW {cerr(ob["sw"])} {cvec(ob["d"])})'
     return f'(HB {cobs(ob)})'
 
+def cbop_term(op):
+    if op[0] == 'bdef': return f'(BDefine {cstr(op[1])} {clist(op[2], cstr)} {cnat(op[3])} {cnat(op[4])} {cbool(op[5])})'
+    if op[0] == 'poke': return f'(BPoke {cnat(op[1])} {qlist(op[2])})'
+    return f'(BOp {ceop_term(op)})'
+
+def cbobs(ob):
+    if 'bd' in ob: return f'(BD {cerr(ob["bd"])} {cvec(ob["view"])})'
+    if 'bp' in ob: return f'(BP {cvec(ob["bp"])})'
+    return f'(BH {chobs(ob)})'
+
 _repaired = []
 def cfg_calls_clear_caches():
     """does THIS tree's set_alias / define_group empty the look-up caches (pending_fixes C10_4)?  Probed by behaviour: a key
@@ -1793,21 +1872,25 @@ def coq_case_hist(case, out):
     wcomps = clist([f'({cstr(k)}, {cvec(v)})' for k, v in out['wcomps']])
     cc = clist([f'(ec {ckey(k)} {ccindex(i)} {ckind(kd)})' for k, i, kd in out['cc']])
     mc = clist([f'({clist(ph, cstr)}, {clist([cmentry(k, v) for k, v in ents])})' for ph, ents in out['mc']])
-    return (f'(ecasec_eqb {cbool(out["clr"])} {VARIANT} {chems} {cops} {clist(out["cop_errs"], cerr)} {clist([cixr(x) for x in case["ixs"]])} '
-            f'{clist([qlist(d) for d in case["sps"]])} {clist([ceop_term(o) for o in case["ops"]])} {clist([chobs(o) for o in out["obs"]])} '
-            f'{table} {clist(out["absent"], cstr)} {comps} {wcomps} {cc} {mc} {clist([cvec(d) for d in out["sps"]])})')
+    return (f'(bcasec_eqb {cbool(out["clr"])} {VARIANT} {chems} {cops} {clist(out["cop_errs"], cerr)} {clist([cixr(x) for x in case["ixs"]])} '
+            f'{clist([qlist(d) for d in case["sps"]])} {clist([qlist(d) for d in case.get("bufs", [])])} '
+            f'{clist([cbop_term(o) for o in case["ops"]])} {clist([cbobs(o) for o in out["obs"]])} '
+            f'{table} {clist(out["absent"], cstr)} {comps} {wcomps} {cc} {mc} {clist([cvec(d) for d in out["sps"]])} '
+            f'{clist([cvec(d) for d in out.get("bufs", [])])})')
 
 def coq_show_hist(case, out):
     chems, cops = case_args(case, out)
     return (f'(match compile {chems} with Err e => None | Ok c0 => let (c, es) := cbuild c0 {cops} in '
-            f'Some (es, snd (erunc {cbool(out["clr"])} {VARIANT} (mkhs c (mkst [] [] {clist([cixr(x) for x in case["ixs"]])}) {clist([qlist(d) for d in case["sps"]])}) '
-            f'{clist([ceop_term(o) for o in case["ops"][:80]])})) end)')
+            f'Some (es, snd (brunc {cbool(out["clr"])} {VARIANT} (mkbs (mkhs c (mkst [] [] {clist([cixr(x) for x in case["ixs"]])}) {clist([qlist(d) for d in case["sps"]])}) '
+            f'{clist([qlist(d) for d in case.get("bufs", [])])}) {clist([cbop_term(o) for o in case["ops"][:80]])})) end)')
 
 def classify_hist(case, out):
     ks = ['hist']
     ncfg = 0
     for op, ob in zip(case['ops'], out.get('obs', [])):
-        if 'c' in ob: ks.append(f'hist:cfg:{op[1][0]}:{ob["c"] or "ok"}'); ncfg += 1
+        if 'bd' in ob: ks.append(f'hist:define-from-caller-array:{"wt" if op[5] else "mol"}:{ob["bd"] or "ok"}'); ncfg += 1
+        elif 'bp' in ob: ks.append('hist:caller-writes-own-array')
+        elif 'c' in ob: ks.append(f'hist:cfg:{op[1][0]}:{ob["c"] or "ok"}'); ncfg += 1
         elif 'sv' in ob: ks.append(f'hist:sget:ok:{ob["sv"][0]}')
         elif 'se' in ob: ks.append(f'hist:sget:{ob["se"]}')
         elif 'sw' in ob: ks.append(f'hist:sset:{op[3][0]}:{ob["sw"] or "ok"}')
@@ -1862,6 +1945,10 @@ def oracle_hist(case):
         except Exception: pass
     ixs = build_indexers(case, chems); sps = build_splits(case, chems)
     done = []                                    # configuration calls made so far
+    bufs = [np.array(b, float) for b in case.get('bufs', [])]      # the caller's own arrays
+    def stored():
+        return {nm: (np.array(chems._group_mol_compositions[nm], float), np.array(chems._group_wt_compositions[nm], float))
+                for nm in chems._group_mol_compositions}
     def fresh():
         ch, _ = build_package(case)
         for c in case['cops'] + done:
@@ -1883,6 +1970,25 @@ def oracle_hist(case):
         except Exception as e: return ('err', type(e).__name__, str(e)[:80])
     for num, op in enumerate(case['ops']):
         kind = op[0]
+        if kind == 'bdef':
+            view = bufs[op[3]][:op[4]]; given = view.copy()
+            try: chems.define_group(op[1], op[2], view, op[5])
+            except Exception: pass
+            if not np.array_equal(view, given):
+                return (f'define-group-changes-caller-array: op {num}: define_group({op[1]!r}, {op[2]!r}, <float array {given.tolist()}>, wt={op[5]}) '
+                        f'left the array of the caller holding {view.tolist()}')
+            done.append(['group', op[1], op[2], given.tolist(), op[5]]); continue
+        if kind == 'poke':
+            before = stored()
+            bufs[op[1]][:len(op[2])] = op[2]
+            after = stored()
+            for nm in before:
+                for x, y, basis in zip(before[nm], after[nm], ('molar', 'mass')):
+                    if not np.array_equal(x, y):
+                        return (f'group-composition-aliased: op {num}: the caller wrote {op[2]} into its OWN array (once passed to define_group) and the stored '
+                                f'{basis} composition of group {nm!r} changed from {x.tolist()} to {y.tolist()}: a scalar written to the group is no longer '
+                                f'distributed by the composition the group was defined with')
+            continue
         if kind == 'cfg':
             try: apply_cop(chems, op[1])
             except Exception: pass
